@@ -336,8 +336,14 @@ impl RtMessage {
             result.push_str(&value.len().to_string());
             result.push_str(") = ");
 
-            if tag.is_nested() {
-                let nested_msg = RtMessage::from_bytes(value).unwrap();
+            // a nested value that does not itself decode is shown as hex, like any other value
+            let nested_msg = if tag.is_nested() {
+                RtMessage::from_bytes(value).ok()
+            } else {
+                None
+            };
+
+            if let Some(nested_msg) = nested_msg {
                 result.push_str(&nested_msg.to_string(indent_level + 1))
             } else {
                 result.push_str(&HEX.encode(value));
